@@ -1,16 +1,23 @@
 import RsslVerif.Gen.MslDupSites
+import RsslVerif.Gen.MslGenTables
 /-!
-# C02 — the one place where the Metal exporter writes an operand more than once
+# C02 — the two places where the Metal exporter writes an operand more than once
 
-`msl/src/generator.rs`, `generate_expression`, arm `Cast` to a struct type: `(S)value` is emitted as `S { v, v, … }`,
-the generated operand copied once per scalar element of `S` (`get_member_count`), if the side-effect test accepts the
-operand or the struct has exactly one element; otherwise the export fails with `UnsupportedCast`.
+1. `msl/src/generator.rs`, `generate_expression`, arm `Cast` to a struct type: `(S)value` is emitted as `S { c₁, c₂, … }`, one
+   clause per element of `S` (`get_member_types`): the generated operand copied when the element has the operand's type or
+   the operand is a literal, otherwise the operand below a cast to the element's type, generated again (fix 5d2f434) — if
+   the side-effect test accepts the operand or the struct has exactly one element; otherwise the export fails with
+   `UnsupportedCast`.
+2. `generate_intrinsic_op`, arm `RemainderAssignment` on a floating-point target (fixes 92d66eb + 35faaaa): `a %= b` is
+   emitted as `a = metal::fmod(a, b)` — the target twice, and read BEFORE `b` is evaluated — if `is_plain_place` accepts the
+   target and `is_free_of_writes` the right operand; otherwise the export fails with `ComplexRemainderAssignment`.
 
-This file is the executable model of that decision, driven by the table `Gen.MslDupSites.structCastGuard` that the
-translator re-extracts from the source (constructor ↦ the fields the test recurses into).  Core Lean only.
+This file is the executable model of both decisions, driven by the tables `Gen.MslDupSites.structCastGuard` and
+`Gen.MslGenTables.remAssignPlaceGuard / remAssignIndexGuard / remAssignWritesGuard` that the translator re-extracts from the source
+(constructor ↦ the fields the test recurses into).  Core Lean only.
 -/
 namespace RsslVerif.Model.MslDup
-open RsslVerif.Gen.MslDupSites
+open RsslVerif.Gen.MslDupSites RsslVerif.Gen.MslGenTables
 
 mutual
 /-- an `ir::Expression` as the side-effect test sees it: the constructor's name and its fields in declaration order -/
@@ -62,45 +69,126 @@ def testFields (rows : List GuardRow) (recursed : List Nat) (i : Nat) : DFields 
   | .many _ rest => (!recursed.contains i) && testFields rows recursed (i + 1) rest
 end
 
-/-- types as `get_member_count` sees them -/
+/-- types as `get_member_types` sees them; a leaf carries its (unmodified) type id -/
 inductive CTy where
-  | leaf                                  -- scalar, vector, matrix, enum, object: one element
+  | leaf (ty : Nat)                       -- scalar, vector, matrix, enum, object: one element
   | arr (elem : CTy) (len : Option Nat)   -- `Array(inner, Some(len))` / `Array(_, None)`
   | struct (members : List CTy)
   deriving Repr, Inhabited
 
+def repeatList (l : List Nat) : Nat → List Nat
+  | 0 => []
+  | n + 1 => l ++ repeatList l n
+
 mutual
-/-- `get_member_count`: arrays multiply, structs add up, everything else is one; an unbounded array panics -/
-def memberCount : CTy → Except String Nat
-  | .leaf => .ok 1
-  | .arr e (some n) => match memberCount e with
-    | .ok k => .ok (k * n)
+/-- `get_member_types`: an array repeats its element's list, a struct concatenates its members' lists, everything else is
+one element of its own type; an unbounded array panics -/
+def memberTypes : CTy → Except String (List Nat)
+  | .leaf t => .ok [t]
+  | .arr e (some n) => match memberTypes e with
+    | .ok l => .ok (repeatList l n)
     | .error m => .error m
   | .arr _ none => .error "Can not cast to unbounded array"
-  | .struct ms => memberCountList ms
-def memberCountList : List CTy → Except String Nat
-  | [] => .ok 0
-  | m :: r => match memberCount m with
-    | .ok k => match memberCountList r with
-      | .ok s => .ok (k + s)
+  | .struct ms => memberTypesList ms
+def memberTypesList : List CTy → Except String (List Nat)
+  | [] => .ok []
+  | m :: r => match memberTypes m with
+    | .ok k => match memberTypesList r with
+      | .ok s => .ok (k ++ s)
       | .error e => .error e
     | .error e => .error e
 end
 
+/-- one clause of the emitted braced list -/
+inductive Clause where
+  | copy                 -- `inner.clone()`: the generated operand
+  | convert (ty : Nat)   -- `generate_expression(Cast(member_type, expr.clone()))`: the operand converted to the element's type
+  deriving Repr, DecidableEq, Inhabited
+
 inductive CastOutcome where
-  | repeated (n : Nat)          -- `BracedInit(type, [inner; n])`
+  | clauses (cs : List Clause)  -- `BracedInit(type, clauses)`
   | unsupportedCast             -- `Err(GenerateError::UnsupportedCast)`
   | panic (msg : String)
   deriving Repr, DecidableEq, Inhabited
 
-/-- the aggregate branch of the struct half of the Cast arm (operand of another type than the struct itself) -/
-def structCast (rows : List GuardRow) (oneElementAnything : Bool) (ty : CTy) (operand : DExpr) : CastOutcome :=
-  match memberCount ty with
+/-- `matches!(**expr, ir::Expression::Literal(_))` -/
+def isLiteral : DExpr → Bool
+  | .node c _ => c == "Literal"
+
+/-- the clause for an element of type `t` -/
+def clauseFor (inputTy : Nat) (lit : Bool) (t : Nat) : Clause := if t == inputTy || lit then .copy else .convert t
+
+/-- the aggregate branch of the struct half of the Cast arm (operand of type `inputTy`, another type than the struct itself) -/
+def structCast (rows : List GuardRow) (oneElementAnything : Bool) (ty : CTy) (inputTy : Nat) (operand : DExpr) : CastOutcome :=
+  match memberTypes ty with
   | .error m => .panic m
-  | .ok n => if testExpr rows operand || (oneElementAnything && n == 1) then .repeated n else .unsupportedCast
+  | .ok ts =>
+    if testExpr rows operand || (oneElementAnything && ts.length == 1) then .clauses (ts.map (clauseFor inputTy (isLiteral operand)))
+    else .unsupportedCast
 
 /-- with the tables of the current source -/
-def structCastNow (ty : CTy) (operand : DExpr) : CastOutcome :=
-  structCast structCastGuard structCastAcceptsAnythingForOneElement ty operand
+def structCastNow (ty : CTy) (inputTy : Nat) (operand : DExpr) : CastOutcome :=
+  structCast structCastGuard structCastAcceptsAnythingForOneElement ty inputTy operand
+
+/-! ## the operands of a floating-point `%=` -/
+
+/-- the pattern's operator alternatives admit the node's operator (field 0, an index into `intrinsicOpNames`) -/
+def opOK (r : PlaceRow) (fs : DFields) : Bool :=
+  r.ops.isEmpty ||
+    match fs with
+    | .payload p _ =>
+      (match intrinsicOpNames[p]? with
+        | some n => r.ops.contains n
+        | none => false)
+    | _ => false
+
+/-- the first arm whose pattern matches the node: the constructor, and one of the operator alternatives if there are any -/
+def findPlaceRow (rows : List PlaceRow) (c : String) (fs : DFields) : Option PlaceRow :=
+  rows.find? (fun r => r.ctor == c && opOK r fs)
+
+mutual
+/-- a local test `fn(expr: &ir::Expression) -> bool` as its table describes it.  `tabs` = the table of the test itself, then
+the table of the test it hands its `other` fields to (`is_plain_place` → `is_plain_index`), and so on; no table = `false`.
+The arm of the node's constructor accepts iff every `self` field passes the test itself, every `other` field the next test,
+every element of an `allOf` field the test itself; fields in none of the lists are NOT looked at (what the code does); no
+arm = the `_ => false` arm.  (A `Vec` field handed to a test on one expression, or a `Box` field to `.iter().all`, does not
+type-check in Rust; the model refuses.) -/
+def testD : List (List PlaceRow) → DExpr → Bool
+  | [], _ => false
+  | rows :: more, .node c fs =>
+    match findPlaceRow rows c fs with
+    | none => false
+    | some r => r.arity == fs.length && testDFields rows more r 0 fs
+def testDFields (rows : List PlaceRow) (more : List (List PlaceRow)) (r : PlaceRow) (i : Nat) : DFields → Bool
+  | .nil => true
+  | .payload _ rest => testDFields rows more r (i + 1) rest
+  | .one e rest =>
+    (!r.allOf.contains i) &&
+    (if r.self.contains i then testD (rows :: more) e else if r.other.contains i then testD more e else true) &&
+      testDFields rows more r (i + 1) rest
+  | .many es rest =>
+    (!r.self.contains i) && (!r.other.contains i) && (if r.allOf.contains i then testDAll rows more es else true) &&
+      testDFields rows more r (i + 1) rest
+def testDAll (rows : List PlaceRow) (more : List (List PlaceRow)) : DExprs → Bool
+  | .nil => true
+  | .cons e rest => testD (rows :: more) e && testDAll rows more rest
+end
+
+/-- `is_plain_place` with the tables of the current source -/
+def plainPlaceD (e : DExpr) : Bool := testD [remAssignPlaceGuard, remAssignIndexGuard] e
+/-- `is_plain_index` -/
+def plainIndexD (e : DExpr) : Bool := testD [remAssignIndexGuard] e
+/-- `is_free_of_writes` -/
+def freeOfWritesD (e : DExpr) : Bool := testD [remAssignWritesGuard] e
+
+inductive RemAssignOutcome where
+  | targetTwice        -- `a = inner(a, b)`
+  | refused            -- `Err(GenerateError::ComplexRemainderAssignment)`
+  deriving Repr, DecidableEq, Inhabited
+
+/-- the floating-point branch of the `RemainderAssignment` arm, with the tables of the current source:
+`!is_plain_place(&exprs[0]) || !is_free_of_writes(&exprs[1])` refuses -/
+def remAssignNow (target rhs : DExpr) : RemAssignOutcome :=
+  if plainPlaceD target && freeOfWritesD rhs then .targetTwice else .refused
 
 end RsslVerif.Model.MslDup
